@@ -1182,6 +1182,13 @@ func (f *Frugal) validateTypeNames() error {
 		if err := check(enum.Name); err != nil {
 			return err
 		}
+		values := make(map[string]struct{})
+		for _, value := range enum.Values {
+			if _, ok := values[value.Name]; ok {
+				return fmt.Errorf("Duplicate value name %s in enum %s", value.Name, enum.Name)
+			}
+			values[value.Name] = struct{}{}
+		}
 	}
 	for _, structs := range [][]*Struct{f.Structs, f.Unions, f.Exceptions} {
 		for _, s := range structs {
